@@ -166,10 +166,12 @@ class Exec:
             save_pool = w.pool_mode
             w.pool_mode = "serial"
             try:
-                header, rows, keys, gnames, invalid = model.reference_rows(plan["spec"], plan["inputs"], refdir, lt)
+                header, rows, keys, gnames, invalid, missing = model.reference_rows(plan["spec"], plan["inputs"], refdir, lt)
             finally:
                 w.pool_mode = save_pool
             self.ref[lt] = {"header": header, "rows": rows, "keys": keys, "groups": gnames, "invalid": invalid}
+            for k in missing:
+                self.v("exactly_once", f"a sequential single-task session wrote no row for input {k} although its evaluation returned normally")
             w.default_group.atexit.clear()
         self.invalid = set()
         for r in self.ref.values():
@@ -419,6 +421,19 @@ class Exec:
         if k.get("state_digest"):
             s.on_point = self._on_point
         pre = {fname: self.complete_subjects(fname) for fname in plan["files"]}
+        # reach probes: in which state does a session find the files it (re)starts on
+        touched = {fn for sess in phase["sessions"] for fn in sess["aggs"]}
+        for fname in sorted(touched):
+            b = model.read_bytes(self.path(fname))
+            state = "absent" if b is None else ("empty" if b == b"" else ("header" if not pre[fname] else "rows"))
+            self.note(("restart_on_" if pi > 0 else "start_on_") + state)
+        if pi > 0:
+            for fn in os.listdir(self.work):
+                if fn.endswith("aggregator_tmp.tsv"):
+                    claims = (model.read_bytes(self.path(fn)) or b"").decode("utf8", "replace").split("\n")
+                    done = {x for v in pre.values() for x in v}
+                    if any(c and c not in done and c.strip('"') not in done for c in claims):
+                        self.note("restart_with_stale_claims")
         mains = []
         for sess in phase["sessions"]:
             g = s.new_group(sess["group"])
@@ -503,6 +518,8 @@ class Exec:
                         self.v("unfinished_redone", f"phase {pi}: {subj!r} had no row in {fname} at session start; evaluated {n}x (submitted {nsub}x)")
                     else:
                         self.note("evaluated_unfinished")
+                        if nsub > 1:
+                            self.note("duplicate_submission_refused")
 
     # ------------------------------------------------------------------ final oracles
     def final_oracles(self):
@@ -634,6 +651,10 @@ class Exec:
         self.note("loader_checked")
         if len(ref["groups"]) >= 2:
             self.note("loader_multi_group")
+        if any("-" in g for g in ref["groups"]):
+            self.note("group_name_with_dash")
+        if any(not sn.isalnum() for sn in file_names):
+            self.note("awkward_subject_name")
         if len(file_names) >= 2 or len(ref["groups"]) >= 2:
             self.nontrivial = True
         self.query_history(st, st_mod, fname, file_names, table, ref, rows)
